@@ -485,8 +485,9 @@ def run_case(case, stats):
         idhash.install(0)
         try:
             return check_text(text, case['path'], prng.rng('c04-file', case.get('seed', 0), os.path.basename(case['path'])),
-                              stats, max_reads=24 if case.get('tier') != 'thorough' else 60,
-                              ops=('names_at',), orders=case.get('orders'))
+                              stats, max_reads=24 if case.get('tier') != 'thorough' else 40,
+                              ops=('names_at',) if case.get('tier') != 'thorough' else ('names_at', 'declarations', 'evaluate'),
+                              orders=case.get('orders'))
         finally:
             idhash.uninstall()
     return check_project(case, stats)
